@@ -164,3 +164,11 @@ CLAIMS["C19"] = {
     "note": "Known finding (probe + KNOWN-FINDING line): in forwarder mode an event carrying a string that is not valid UTF-8 is discarded (same root cause as C15's finding). The harness waits for parked metric batches before shutting the pipeline down (dispatch into a stopped BackendHandler is outside every listed property).",
     "technique": "property-based testing (rapid) of the composed event pipeline with an exactly-once multiset oracle and a gated completion oracle",
 }
+
+CLAIMS["C20"] = {
+    "text": "End to end on loopback: lambda.NewExtension with per-invocation flushing wraps a forwarder-mode statsd.Server (real HTTP ingestion server, real forwarder, real flush coordinator, real telemetry server); a fake Lambda runtime API (register, telemetry subscription, long-polled /event/next released by the harness, /init/error, /exit/error) "
+            "and a fake upstream /v2/raw with drawn latency and outcome (2xx, 5xx, connection close) write one mutex-ordered log. Histories of 1..5 invocations with 0..4 uniquely valued datapoints accepted over HTTP and 1..3 telemetry batches (other record types around at most one platform.runtimeDone) are checked for: every /event/next request preceded by the finished upstream request(s) "
+            "carrying every datapoint accepted before the preceding runtime-done signal (and before the subscription answer for the initial flush), exactly one /event/next per invocation, no init error on a healthy start; a second scenario starts servers that fail during start-up and requires exactly one /init/error and no /event/next. Exploration.",
+    "note": "The Lambda freeze itself cannot be reproduced; the order of requests in the shared log is the observable. About 0.3 s per history bounds the case count.",
+    "technique": "property-based testing (rapid) end to end with a history-order invariant over a global request log",
+}
